@@ -18,7 +18,11 @@ def dna_text(min_size=0, max_size=40, alphabet=ACGT):
 # DNA pattern dialect: literal | IUPAC letter | X* | X*? | ( )
 
 def parse_pattern(p):
-    """-> list of tokens ("lit", code) | ("star", code, lazy) | ("open",) | ("close",)"""
+    """-> list of tokens ("lit", code) | ("star", code, lazy, min) | ("open",) | ("close",)
+
+    X* / X*? are runs of zero or more, X+ / X+? of one or more.  Syntax outside
+    this dialect makes the instance generator give up on that pattern (Reject),
+    it is not a verdict on the code under test."""
     toks = []
     i = 0
     while i < len(p):
@@ -30,17 +34,16 @@ def parse_pattern(p):
             toks.append(("close",))
             i += 1
         elif ch in dna.IUPAC:
-            if p[i + 1:i + 3] == "*?":
-                toks.append(("star", ch, True))
-                i += 3
-            elif p[i + 1:i + 2] == "*":
-                toks.append(("star", ch, False))
-                i += 2
+            nxt = p[i + 1:i + 2]
+            if nxt in ("*", "+"):
+                lazy = p[i + 2:i + 3] == "?"
+                toks.append(("star", ch, lazy, 1 if nxt == "+" else 0))
+                i += 3 if lazy else 2
             else:
                 toks.append(("lit", ch))
                 i += 1
         else:
-            raise ValueError("unsupported pattern syntax %r in %r" % (ch, p))
+            raise Reject("unparseable-structure")
     return toks
 
 
@@ -79,6 +82,7 @@ def instantiate(tokens, filler, star_lengths):
             pos += 1
         else:
             ln = star_lengths[si % len(star_lengths)] if star_lengths else 0
+            ln = max(ln, t[3] if len(t) > 3 else 0)
             si += 1
             for _ in range(ln):
                 f = filler[fi % flen] if filler else "A"
